@@ -799,9 +799,6 @@ else:
             result = {}
 
             for key, value in self.__dict__.items():
-                if key.startswith("__"):
-                    continue
-
                 if include and key not in include:
                     continue
                 if exclude and self._should_exclude(key, exclude):
